@@ -52,6 +52,9 @@ namespace smt
             assert(sat->root_level());
             const var slack = new_var();
             exprs.emplace(s_expr, slack);
+#ifdef ORATIO_VERIF
+            verif_slack_defs.emplace_back(slack, l);
+#endif
             c_bounds[lb_index(slack)] = {lb(l), TRUE_lit}; // we set the lower bound at the lower bound of the given linear expression..
             c_bounds[ub_index(slack)] = {ub(l), TRUE_lit}; // we set the upper bound at the upper bound of the given linear expression..
             vals[slack] = value(l);                        // we set the initial value of the new slack variable at the value of the given linear expression..
@@ -518,6 +521,23 @@ namespace smt
         for ([[maybe_unused]] const auto &[v, c] : l.vars)
             t_watches[v].emplace(r);
     }
+
+#ifdef ORATIO_VERIF
+    SMT_EXPORT std::vector<lra_theory::verif_assertion> lra_theory::verif_assertions() const
+    {
+        std::vector<verif_assertion> as;
+        for (const auto &[ctr_v, a] : v_asrts)
+            as.push_back({a->b, a->o == op::leq, a->x, a->v});
+        return as;
+    }
+    SMT_EXPORT std::vector<std::pair<var, lin>> lra_theory::verif_rows() const
+    {
+        std::vector<std::pair<var, lin>> rs;
+        for (const auto &[v, r] : tableau)
+            rs.emplace_back(v, r->l);
+        return rs;
+    }
+#endif
 
     json lra_theory::to_json() const noexcept
     {
